@@ -283,6 +283,21 @@ package shard
 //@   property C15
 //@   callee (writecache.Cache).Delete
 //@   requires [only_the_plain_garbage_mark_hides_the_object_at_once] mark == metabase.GarbageMarkDefault
+// ... and only for an object the mark really hides: a live lock overrides a garbage mark, the
+// metabase keeps reporting a locked object as available until GC has removed it, and until then
+// its not-yet-flushed bytes live in the cache only. The marking call tells nothing about that:
+// the fact comes from asking the metabase whether the object is locked.
+//@ ghost pred markHidesTheObject() bool
+//@ callrule c15_lock_answer_for_the_marked_object in (*Shard).MarkGarbage
+//@   property C15
+//@   optional
+//@   callee (*metabase.DB).IsLocked
+//@   pureeffect
+//@   defines err == nil && !res0 ==> markHidesTheObject()
+//@ callrule c15_mark_drops_cached_copies_only_of_hidden_objects in (*Shard).MarkGarbage
+//@   property C15
+//@   callee (writecache.Cache).Delete
+//@   requires [object_is_no_longer_reported_available] markHidesTheObject()
 
 // "Every modifying request fails with a mode error": a modifying operation of the shard
 // reports success only on a path where it found the mode writable itself - also when it ends
